@@ -33,7 +33,7 @@ THEOREMS_BY_PROP = {
             "DepLogic.C15.flatten_pair", "DepLogic.C15.and_single_shape", "DepLogic.C15.or_single_shape",
             "DepLogic.C15.multiOf_flat", "DepLogic.C15.unionOfList_flat", "DepLogic.C15.intersection_flat",
             "DepLogic.C15.unionOf_flat", "DepLogic.C15.and_flat", "DepLogic.C15.or_flat",
-            "DepLogic.C15.exclude_flat_multi", "DepLogic.C15.exclude_flat_union", "DepLogic.C15.build_flat_conj"]}
+            "DepLogic.C15.exclude_flat_multi", "DepLogic.C15.exclude_flat_union", "DepLogic.C15.build_flat_conj", "DepLogic.C15.build_flat_disj"]}
 THEOREMS: list[str] = []
 
 
@@ -486,6 +486,12 @@ def factored_base(rng):
         # the removed variable only inside the nested union (seed C12d: a shallow scan for `extra` in without_extras)
         v = rng.choice(["extra", "os_name", "sys_platform"])
         B, C = f'{v} == "{rng.choice(["a", "foo", "linux"])}"', f'{v} == "{rng.choice(["b", "test", "win32"])}"'
+    if rng.random() < 0.2:
+        # ONE variable throughout, atoms that cannot be merged: only((var,)) must then equal the marker (seed C12f: a
+        # single-name fast path in MultiMarker.only dropped the nested union)
+        v = rng.choice(["os_name", "sys_platform", "platform_machine"])
+        a, b, c = rng.sample(["n", "t", "p", "x", "6", "in"], 3)
+        A, B, C = f'"{a}" in {v}', f'"{b}" in {v}', f'"{c}" in {v}'
     L = lambda x: E("leaf", x)  # noqa: E731
     k = rng.random()
     if k < 0.5:
